@@ -645,7 +645,7 @@ Definition server_tls13_alpn (s : Server) (ch : CHello) : res (option Z) :=
   match ch_alpn ch with
   | Some ca => match sv_alpn s with
                | Some sa => Ok (first_matching ca sa)
-               | None => server_crash           (* `i in None`: TypeError, no alert *)
+               | None => Ok None                (* no ALPN configured: the extension is ignored *)
                end
   | None => Ok None end.
 
